@@ -78,7 +78,7 @@ func runC17(p *Prog, r *Report) {
 					return false
 				}
 				pa, ok := c.Call.Value.(*ssa.Parameter)
-				return ok && pa.Name() == "setFunc"
+				return ok && paramRefName(pa) == "setFunc"
 			}
 			noValue := nilAtom("value==nil", mFieldLoad(tCNode, "value"))
 			hasCtor := nilAtom("setFunc==nil", mParam("setFunc"))
